@@ -48,10 +48,31 @@ def run(tier, rep, only=None):
         rep.violations.append({"obligation": "import(cl14.models)", "inputs": {"spec": "U"}, "detail": "generated models do not import: " + (p.stderr.strip().splitlines() or ["?"])[-1][:300]})
         return
     run_harness(rep, HARNESS, tier, [0, 1], only, env_extra={"VERIF_GEN_ROOT": root})
+    # generation half of the discriminator clause (symx): the mapping of a generated alias leads to the variant models
+    from props import c14map
+    from symx import explore
+
+    sp = c14map.specs(tier)
+    if only:
+        sp = [s for s in sp if only in explore.build(s).name]
+    if sp:
+        res = explore.run_all(sp, log=lambda m: print("[c14/mapping]", m, flush=True))
+        for spec in sp:
+            ob = explore.build(spec)
+            rep.add_symx(res[ob.name], functions=ob.functions, bounds=ob.bounds)
+        rep.stubs.append("mapping targets: ModelsEmitter._generate_model_file/_generate_init_py_content -> no-op (naming loop real)")
 
 
 def replay(path):
     v = json.load(open(path))["violation"]
+    if v["obligation"].startswith(("mapping_targets/", "unified_enum/")):
+        from props import c14map
+
+        ob = c14map.replay_ob(v)
+        r = ob.run_real(v["inputs"])
+        ok, why = ob.verdict(v["inputs"], r)
+        print("replay %s inputs=%r -> holds=%s %s" % (v["obligation"], v["inputs"], ok, why))
+        return 0 if ok else 1
     root, err = prepare()
     os.environ["VERIF_GEN_ROOT"] = root
     name = v["obligation"].split(":")[1].split("/")[0]
